@@ -201,6 +201,20 @@ fn limit_sets(q_inner: &Joints, weights: &[f64]) -> Vec<Limits> {
         f[5] = 0.0;
         t[5] = 0.0;
         out.push(Limits { from: f, to: t, weight: w });
+        // almost a full turn: only a sliver of 8e-4 rad around the solution's own J4 (and, separately, J1) is forbidden,
+        // written once as a wrapping range and once symmetric about the opposite point
+        for j in [3usize, 0] {
+            let mut f = [-3.0; 6];
+            let mut t = [3.0; 6];
+            f[j] = c[j] + 4e-4;
+            t[j] = c[j] - 4e-4;
+            out.push(Limits { from: f, to: t, weight: w });
+            let mut f = [-3.0; 6];
+            let mut t = [3.0; 6];
+            f[j] = c[j] + 4e-4 - 2.0 * PI;
+            t[j] = c[j] - 4e-4;
+            out.push(Limits { from: f, to: t, weight: w });
+        }
     }
     out
 }
@@ -279,7 +293,7 @@ pub fn run(ctx: &Ctx) -> Report {
     rep.traces_validated = rep.transitions;
     rep.rule = "breadth-first enumeration of wrapper stacks over {tool, base, frame, parallelogram} to the stated depth around a constrained OPW robot \
                 (dof 5 and 6) x poses (regular and wrist-singular) x limit sets {window, wrapping window, wide, from==to on J1/J4/J6, window excluding \
-                everything, J4/J6 windows around the singular recovery, narrow J4 window with J6 free} x weights x entry points x previous {solution, perturbed J4/J6 (two ways, one outside the limits), \
+                everything, J4/J6 windows around the singular recovery, narrow J4 window with J6 free, almost-full-turn ranges forbidding an 8e-4 rad sliver around the solution's J4 / J1} x weights x entry points x previous {solution, perturbed J4/J6 (two ways, one outside the limits), \
                 CONSTRAINT_CENTERED}; oracle: answers == {u in answers of the same stack without limits : arc membership accepts the wrapped robot's \
                 joint vector}, both inclusions, mod 2pi; constraints() delegated field by field; signature = (entry, dof, kept of total)".into();
     rep.set("axes", json!({"stacks": stacks.len(), "robots": robots.len(), "poses": thetas.len(), "limit_sets": n_lim}));
